@@ -68,6 +68,15 @@ def runeError : Nat := 0xFFFD
 
 def isCont (b : UInt8) : Bool := 0x80 ≤ b.toNat && b.toNat ≤ 0xBF
 
+/-- The `acceptRanges` test of a three-byte sequence with lead byte value `x` (E0 and ED narrow the
+range of the second byte: no overlong forms, no surrogates). -/
+def accept3 (x : Nat) (b1 b2 : UInt8) : Bool :=
+  (if x = 0xE0 then 0xA0 else 0x80) ≤ b1.toNat && b1.toNat ≤ (if x = 0xED then 0x9F else 0xBF) && isCont b2
+
+/-- The same for a four-byte sequence (F0 and F4 narrow the second byte: no overlong forms, ≤ U+10FFFF). -/
+def accept4 (x : Nat) (b1 b2 b3 : UInt8) : Bool :=
+  (if x = 0xF0 then 0x90 else 0x80) ≤ b1.toNat && b1.toNat ≤ (if x = 0xF4 then 0x8F else 0xBF) && isCont b2 && isCont b3
+
 /-- `utf8.DecodeRune`: (rune, width); `(RuneError, 1)` for an invalid or short encoding,
 `(RuneError, 0)` for the empty input. -/
 def decodeRune : Bytes → Nat × Nat
@@ -83,18 +92,14 @@ def decodeRune : Bytes → Nat × Nat
     else if x < 0xF0 then
       match rest with
       | b1 :: b2 :: _ =>
-        let lo := if x = 0xE0 then 0xA0 else 0x80
-        let hi := if x = 0xED then 0x9F else 0xBF
-        if lo ≤ b1.toNat && b1.toNat ≤ hi && isCont b2 then
+        if accept3 x b1 b2 then
           (((x - 0xE0) * 64 + (b1.toNat - 0x80)) * 64 + (b2.toNat - 0x80), 3)
         else (runeError, 1)
       | _ => (runeError, 1)
     else if x < 0xF5 then
       match rest with
       | b1 :: b2 :: b3 :: _ =>
-        let lo := if x = 0xF0 then 0x90 else 0x80
-        let hi := if x = 0xF4 then 0x8F else 0xBF
-        if lo ≤ b1.toNat && b1.toNat ≤ hi && isCont b2 && isCont b3 then
+        if accept4 x b1 b2 b3 then
           ((((x - 0xF0) * 64 + (b1.toNat - 0x80)) * 64 + (b2.toNat - 0x80)) * 64 + (b3.toNat - 0x80), 4)
         else (runeError, 1)
       | _ => (runeError, 1)
